@@ -51,7 +51,10 @@ def cat_dataset(rng, outcome='binary', ncov=None, n_extra=None, weights=False, m
     df = pd.DataFrame(rows, columns=covs + ['A', 'Y', '_prot'])
     for c in covs + ['A']:
         df[c] = df[c].astype(int)
-    if weights:
+    if weights == 'frac':
+        # non-integer (sampling) weights, exact binary fractions, varying inside the cells
+        df['w'] = rng.choice([0.5, 0.75, 1.25, 1.5, 2.5, 3.25], size=len(df))
+    elif weights:
         df['w'] = rng.integers(1, 5, size=len(df)).astype(int)
     if missing:
         if missing == 'mcar':
@@ -112,12 +115,12 @@ def closed_form(df, covs, wcol=None, ycol='Y', acol='A'):
     for s in S:
         for a in (0, 1):
             sel = (sid == s) & (A == a) & ~np.isnan(Y)
-            num = sum(Fraction(int(wi)) * Fraction(float(yi)) for wi, yi in zip(w[sel], Y[sel]))
-            den = sum(Fraction(int(wi)) for wi in w[sel])
+            num = sum(Fraction(float(wi)) * Fraction(float(yi)) for wi, yi in zip(w[sel], Y[sel]))
+            den = sum(Fraction(float(wi)) for wi in w[sel])
             cm[(s, a)] = num / den
-        N[('population', s)] = sum(Fraction(int(wi)) for wi in w[sid == s])
-        N[('exposed', s)] = sum(Fraction(int(wi)) for wi in w[(sid == s) & (A == 1)])
-        N[('unexposed', s)] = sum(Fraction(int(wi)) for wi in w[(sid == s) & (A == 0)])
+        N[('population', s)] = sum(Fraction(float(wi)) for wi in w[sid == s])
+        N[('exposed', s)] = sum(Fraction(float(wi)) for wi in w[(sid == s) & (A == 1)])
+        N[('unexposed', s)] = sum(Fraction(float(wi)) for wi in w[(sid == s) & (A == 0)])
     out = {}
     for t in ('population', 'exposed', 'unexposed'):
         tot = sum(N[(t, s)] for s in S)
@@ -132,7 +135,7 @@ def enc_rows(df, covs, wcol=None, ycol='Y', acol='A'):
     kw = dict(s=enc_list(sid.tolist(), str), a=enc_list(df[acol].tolist(), lambda v: str(int(v))),
               y=','.join('_' if np.isnan(v) else rq(float(v)) for v in df[ycol].tolist()))
     if wcol:
-        kw['w'] = enc_list(df[wcol].tolist(), lambda v: str(int(v)))
+        kw['w'] = enc_list(df[wcol].tolist(), lambda v: rq(float(v)))
     return kw
 
 
